@@ -31,13 +31,21 @@ ASSUMPTIONS = [
 ]
 
 MODES = ['surf-tr', 'surf-tr', 'trcl-num', 'trcl-inline', 'trcl-inline',
-         'implicit']
+         'implicit', 'surf-tr+trcl']
 SURF_KINDS = gen.ELEMENTARY
 ROT_ALL = ('generic', 'perm', 'flip', 'small', 'identity', 'axis')
 
 
+AXIAL_KINDS = ['tx', 'ty', 'tz', 'k/x', 'k/y', 'k/z', 'kx', 'ky', 'kz',
+               'c/x', 'c/y', 'c/z', 'cx', 'cy', 'cz', 'x', 'y', 'z']
+
+
 @st.composite
-def base_surface(draw, sid, allow_macro=True):
+def base_surface(draw, sid, allow_macro=True, focus=None):
+    if focus == 'axis':
+        kind = draw(st.sampled_from(AXIAL_KINDS))
+        k, p, lab = draw(gen.elementary_params(kind))
+        return md.surf(sid, k, p), ['kind:' + kind] + lab
     if allow_macro and draw(st.integers(0, 3)) == 0:
         kind = draw(st.sampled_from(gen.MACROS))
         k, p, lab = draw(gen.macro_params(kind))
@@ -53,16 +61,25 @@ def base_surface(draw, sid, allow_macro=True):
 
 
 @st.composite
-def tr_case(draw, tier='quick'):
+def tr_case(draw, tier='quick', focus=None):
+    """focus='axis': axisymmetric surfaces under motions that keep them
+    axis-aligned (permutations, flips, rotations about one axis) - the
+    converter re-classifies those frames with special cases."""
+    if focus is None and draw(st.integers(0, 5)) == 0:
+        focus = 'axis'
     mode = draw(st.sampled_from(MODES))
     labels = ['mode:' + mode]
+    rot_cls = ('perm', 'flip', 'flip', 'axis') if focus == 'axis' else None
+    if focus:
+        labels.append('focus:' + focus)
     deck = md.new_deck()
     if mode == 'surf-tr':
-        spec, lab = draw(gen.tr_spec())
+        spec, lab = draw(gen.tr_spec(rot_classes=rot_cls))
         labels += lab
         trn = draw(st.sampled_from([1, 3, 17, 148]))
         deck['transforms'].append({'id': trn, 'spec': spec})
-        s, lab = draw(base_surface(draw(st.sampled_from([1, 8, 77]))))
+        s, lab = draw(base_surface(draw(st.sampled_from([1, 8, 77])),
+                                   focus=focus))
         labels += lab
         s['tr'] = trn
         deck['surfaces'].append(s)
@@ -75,8 +92,7 @@ def tr_case(draw, tier='quick'):
         sid = 0
         for _ in range(n_s):
             sid += draw(st.integers(1, 9))
-            s, lab = draw(base_surface(sid, allow_macro=(mode != 'implicit')
-                                       or True))
+            s, lab = draw(base_surface(sid, focus=focus))
             labels += lab
             deck['surfaces'].append(s)
             sids.append(sid)
@@ -85,25 +101,46 @@ def tr_case(draw, tier='quick'):
         else:
             expr = draw(gen.expression(sids, 2, None, compl_ok=False))
         cid = draw(st.sampled_from([1, 4, 30, 999]))
-        if mode == 'trcl-num':
-            spec, lab = draw(gen.tr_spec())
+        if mode == 'trcl-num' or (mode == 'surf-tr+trcl'
+                                  and draw(st.booleans())):
+            spec, lab = draw(gen.tr_spec(rot_classes=rot_cls))
             trn = draw(st.sampled_from([1, 2, 25]))
             deck['transforms'].append({'id': trn, 'spec': spec})
             ref = {'num': trn}
         else:
-            spec, lab = draw(gen.tr_spec(allow_abbrev=False))
+            spec, lab = draw(gen.tr_spec(allow_abbrev=False,
+                                         rot_classes=rot_cls))
             ref = {'inline': spec}
             if mode == 'implicit' and draw(st.booleans()):
                 trn = draw(st.sampled_from([1, 2, 25]))
                 deck['transforms'].append({'id': trn, 'spec': spec})
                 ref = {'num': trn}
         labels += lab
+        if mode == 'surf-tr+trcl':
+            # one of the surfaces also carries its own transformation: the
+            # two motions compose (surface moved first, then the cell)
+            spec_s, lab_s = draw(gen.tr_spec())
+            trn_s = 40 + draw(st.integers(1, 9))
+            deck['transforms'].append({'id': trn_s, 'spec': spec_s})
+            deck['surfaces'][0]['tr'] = trn_s
+            labels += ['surf:' + l for l in lab_s]
         deck['cells'].append(md.cell(cid, 0, None, expr, imp={'n': 1},
                                      trcl=ref))
         other = cid + draw(st.sampled_from([1, 7]))
         if mode == 'implicit':
             neg = gen.push_not(expr, True)
             neg = _renumber(neg, cid)
+            if draw(st.booleans()):
+                # a user surface numbered just below the implicit numbers
+                # 1000*cell+surface (numbers the converter generates for
+                # transformed surfaces must not land on them)
+                big = 1000 * cid + min(sids) - draw(st.integers(1, 3))
+                if big > max(sids) and all(s_['id'] != big
+                                           for s_ in deck['surfaces']):
+                    deck['surfaces'].append(md.surf(big, 'px', [-60.0]))
+                    neg = md.AND(neg, md.S(big)) if neg[0] != '&' \
+                        else neg + [md.S(big)]
+                    labels.append('explicit-id-below-implicit')
             deck['cells'].append(md.cell(other, 0, None, neg, imp={'n': 1}))
         else:
             deck['cells'].append(md.cell(other, 0, None, md.CELLC(cid),
@@ -164,6 +201,10 @@ def check(case):
     no_disp = not T.o.any()
     locator = md.Locator(deck)
     box = semcheck.deck_box(deck) + float(np.abs(T.o).max())
+    for t in deck['transforms']:
+        box = max(box, semcheck.deck_box(deck)
+                  + float(np.abs(T.o).max())
+                  + float(np.abs(np.array(t['spec']['o'])).max()))
     n_pts = 200 if case.get('tier') == 'quick' else 800
     P = semcheck.make_points(locator, case['pseed'], n_pts, box)
     res = conv.convert(text)
